@@ -7,6 +7,27 @@ owns it, and both lookups raise KeyError for an idx that was never registered.
 """
 
 
+def _vector_forms(m, mine):
+    """list, numpy-array, nested-list and with-None queries of Model.idx2uid return the positions of the devices, in query order"""
+    import numpy as np
+    want = list(range(len(mine)))
+    forms = [('list', list(mine)), ('reversed list', list(mine)[::-1]), ('nested list', [list(mine[:1]), list(mine[1:])] if len(mine) > 1 else None),
+             ('list with None', [None] + list(mine))]
+    if mine and len(set(type(i) for i in mine)) == 1:
+        forms.append(('numpy array', np.array(mine)))
+    for what, q in forms:
+        if q is None:
+            continue
+        try:
+            got = list(m.idx2uid(q))
+        except Exception as e:    # noqa
+            return {'observed': 'idx2uid(%s %r) raised %r' % (what, q, e)}
+        w = want[::-1] if what == 'reversed list' else ([None] + want if what == 'list with None' else want)
+        if got != w:
+            return {'observed': 'idx2uid(%s %r) = %r, the devices sit at positions %r' % (what, q, got, w)}
+    return None
+
+
 def run(seed=0):
     import logging
     import random
@@ -49,6 +70,9 @@ def run(seed=0):
                     return n, {'trial': trial, 'model': mname, 'observed': 'idx2uid(%r) = %r, uid map %r, device position %d' % (idx, m.idx2uid(idx), m.uid.get(idx), pos)}
             if len(set(map(repr, mine))) != len(mine):
                 return n, {'trial': trial, 'model': mname, 'observed': 'an idx is registered twice: %r' % (mine,)}
+            bad = _vector_forms(m, mine)
+            if bad:
+                return n, dict(bad, trial=trial, model=mname)
             for missing in ('never', -5):
                 try:
                     r = m.idx2uid(missing)
@@ -59,6 +83,34 @@ def run(seed=0):
         for mm, g in log:
             if mm in ('PV', 'Slack') and grp.idx2model(g) is not ss.__dict__[mm]:
                 return n, {'trial': trial, 'observed': 'StaticGen.idx2model(%r) is %r, the device belongs to %s' % (g, grp.idx2model(g), mm)}
+    # registries of plain integers in every order of adding: consecutive numbers added out of order (first and last in place or not),
+    # numbers with gaps, a one-based and a zero-based range; scalar, list, numpy-array and nested-list queries agree with the positions
+    import itertools
+    import numpy as np
+    orders = [list(p) for p in itertools.permutations([1, 2, 3, 4])] + [[1, 3, 2, 4, 5], [0, 2, 1, 3], [5, 4, 3, 2, 1], [10, 12, 11, 13],
+                                                                        [1, 2, 4, 3, 6, 5, 7], [3, 1, 2], [1, 2, 3, 5], [2, 4, 3, 1, 5]]
+    for order in orders:
+        ss = andes.System(default_config=True, no_undill=True)
+        for i in order:
+            ss.add('Bus', dict(Vn=110.0, idx=i))
+        for i in order[::-1]:
+            ss.add('PQ', dict(bus=i, idx=i, p0=0.01 * i))
+        n += 1
+        for m, mine in ((ss.Bus, order), (ss.PQ, order[::-1])):
+            bad = _vector_forms(m, mine)
+            if bad:
+                return n, dict(bad, model=m.class_name, added_in_order=mine)
+            for q in ([mine[0], mine[-1]], mine[1:], mine[::-1], sorted(mine), [mine[len(mine) // 2]] * 3):
+                for form in (list(q), np.array(q)):
+                    got = list(m.idx2uid(form))
+                    want = [mine.index(i) for i in q]
+                    if got != want:
+                        return n, {'model': m.class_name, 'added_in_order': mine, 'observed': 'idx2uid(%r) = %r, the devices sit at positions %r' % (form, got, want)}
+        grp = ss.ACTopology
+        got = list(grp.idx2uid(sorted(order)))
+        want = [order.index(i) for i in sorted(order)]
+        if got != want:
+            return n, {'group': 'ACTopology', 'added_in_order': order, 'observed': 'idx2uid(%r) = %r, positions are %r' % (sorted(order), got, want)}
     # generated names are tested against the whole GROUP: a device of another model may already carry the name the generator tries next
     for taken_by, auto_model in (('Slack', 'PV'), ('PV', 'Slack')):
         ss = andes.System(default_config=True, no_undill=True)
